@@ -504,6 +504,28 @@ func (g *mgen) stmt(f *mfile, sc *scope, allowExport bool) {
 		} else {
 			add(g.hiddenS(f) + ", 0;")
 		}
+	case k >= 86 && k < 88: // coercion of a BOUND object through operators whose purity depends on KnownPrimitiveType
+		o := g.name(f, "t")
+		add("const " + o + " = { toString() { $p(" + g.id(f) + "); return \"s\"; }, valueOf() { $p(" + g.id(f) + "); return 1; } };")
+		sc.vals = append(sc.vals, o)
+		forms := []string{"`id-${%s ?? \"none\"}`", "`${%s || \"x\"}`", "`${1 ? %s : 1}`", "`${0 ? 1 : %s}`", "%s + \"\"", "\"\" + %s", "%s < 1", "1 <= %s",
+			"%s == \"s\"", "+%s", "-%s", "`${(0, %s)}`", "`${%s && 1}`", "`${typeof %s === \"object\" ? %s : 0}`", "`${void 0 ?? %s}`", "`${null ?? %s}`",
+			"`${[%s]}`", "(%s ?? \"a\") < \"b\"", "(%s ?? 1) == 1", "(%s || 1) < 2", "`${(%s ?? 1) ?? 2}`", "`${(%s ?? %s) ?? \"z\"}`", "`a${%s ?? 1}b${2}`",
+			"`${%s ?? 1n}`", "(%s ?? \"\") != \"\"", "`${!1 || %s}`", "`${(%s, 1) ?? %s}`"}
+		for q := r.Range(1, 3); q > 0; q-- {
+			fm := forms[r.Intn(len(forms))]
+			e := strings.ReplaceAll(fm, "%s", o)
+			n := g.name(f, "h")
+			switch r.Intn(4) {
+			case 0:
+				add(paren(e) + ";")
+			case 1:
+				add(exp(n, "const") + "const " + n + " = " + e + ";")
+			default:
+				add(r.Pick([]string{"const", "let", "var"}) + " " + n + " = " + e + ";")
+			}
+		}
+		g.note("wrap:bound-coercion")
 	case k < 90: // global getter: must never be dropped when referenced outside typeof
 		gn := fmt.Sprintf("gg%d_%d", g.caseNo, g.probe+1)
 		add("Object.defineProperty(globalThis, \"" + gn + "\", { get() { return $p(" + g.id(f) + "); }, configurable: true });")
